@@ -7,6 +7,7 @@ sys.path.insert(0, V)
 from sa import canon
 from sa.core import REPO
 out = {}
+allfuncs = []
 for dirpath, dirnames, filenames in os.walk(os.path.join(REPO, 'photutils')):
     dirnames[:] = sorted(d for d in dirnames if d not in ('tests', '__pycache__'))
     for fn in sorted(filenames):
@@ -19,8 +20,10 @@ for dirpath, dirnames, filenames in os.walk(os.path.join(REPO, 'photutils')):
             mod = mod[:-9]
         tree = ast.parse(open(path, encoding='utf-8').read())
         for q, node in canon._functions(tree, mod):
+            allfuncs.append(q)
             d = canon.local_defs(node)
             if d:
                 out[q] = d
+out['__functions__'] = sorted(allfuncs)
 json.dump({k: out[k] for k in sorted(out)}, open(os.path.join(V, 'canon_locals.json'), 'w'), indent=0)
-print(len(out), 'functions,', sum(len(v) for v in out.values()), 'locals')
+print(len(allfuncs), 'functions,', sum(len(v) for k, v in out.items() if k != '__functions__'), 'locals')
